@@ -92,15 +92,11 @@ def run_dtype(cfg):
                 raise Stop()
             return fc.FNP.zeros(n, dtype)
     ns = fc.load_filters(dict(np=DNP))
-    C = ns[cls]
-    b = C.__new__(C)
-    b._analytic = analytic
-    b._rate = 8000
-    b._vertices = (100.0, 200.0, 300.0)
-    b._centers_ang, b._stds = (0.5,), (3.0,)
-    b._scale_l2_norm = False
-    b._supports = ((0, 5),)
-    b._order = 3
+    b = fc.handbuilt(ns, cls)
+    seen.clear()
+    if cls in ('TriangularOverlappingFilterBank', 'Fbank'):
+        b._analytic = analytic
+        b._vertices = (100.0, 200.0, 300.0)
     viol = []
     is_real = bool(b.is_real)
     if cls != 'Fbank':
@@ -111,6 +107,7 @@ def run_dtype(cfg):
         pass
     except Exception as e:
         symex.guard(e)
+        raise Inconclusive('get_impulse_response raised %s: %s before requesting its buffer' % (type(e).__name__, e))
     if cls == 'Fbank':
         real_out = seen.get('transform') == 'irfft'
     else:
@@ -151,12 +148,9 @@ def run_straddle(cfg):
     def body():
         c = Ctx.cur
         if cls in ('TriangularOverlappingFilterBank', 'Fbank'):
-            C = ns[cls]
-            b = C.__new__(C)
             l, m, r = z3.Reals('l m r')
             c.assume(0 <= l, l < m, m < r, r <= 4000)
-            b._rate, b._analytic = 8000, False
-            b._vertices = (SReal(l), SReal(m), SReal(r))
+            b = fc.handbuilt(ns, cls, _rate=8000, _analytic=False, _vertices=(SReal(l), SReal(m), SReal(r)))
             sup = b.supports
             causal = False
         else:
@@ -416,11 +410,8 @@ def run_gabor(cfg):
         c = Ctx.cur
         sv, xi = z3.Real('std'), z3.Real('xi')
         c.assume(sv > 0, xi >= 0, xi <= rv(math.pi))
-        b = C.__new__(C)
-        b._centers_ang, b._stds = (SReal(xi),), (SReal(sv),)
-        b._supports_ang = ((SReal(xi - 1), SReal(xi + 1)),)
-        b._scale_l2_norm = l2
-        b._rate = 8000
+        b = fc.handbuilt(ns, 'GaborFilterBank', _centers_ang=(SReal(xi),), _stds=(SReal(sv),), _supports_ang=((SReal(xi - 1), SReal(xi + 1)),),
+                         _scale_l2_norm=l2, _rate=8000)
         del EXPARGS[:]
         b.get_frequency_response(0, 2)
         fargs = list(EXPARGS)
@@ -680,27 +671,27 @@ def replay(w):
                 kw['scale_l2_norm'] = w['l2']
             else:
                 kw['order'] = w['order']
-            b = C('mel', num_filts=8, low_hz=100.0, sampling_rate=8000, **kw)
             worst = (0.0, None)
-            for i in range(b.num_filts):
-                width = 1 << 14
-                H = np.abs(b.get_frequency_response(i, width))
-                lo, hi = b.supports_hz[i]
-                f = np.arange(width) * 8000.0 / width
-                f = np.where(f > 4000 + (hi - 4000 if hi > 4000 else 0) + 1e9, f - 8000, f)
-                outside = ~(((f >= lo) & (f <= hi)) | ((f - 8000 >= lo) & (f - 8000 <= hi)))
-                v = H[outside].max() if outside.any() else 0.0
-                if v > worst[0]:
-                    worst = (float(v), 'filter %d' % i)
-                if k == 'gabor':
-                    s0, s1 = b.supports[i]
-                    wt = 4 * (s1 - s0) + 64
-                    h = np.abs(b.get_impulse_response(i, wt))
-                    ins = np.zeros(wt, bool)
-                    ins[np.arange(s0, s1 + 1) % wt] = True
-                    v2 = h[~ins].max()
-                    if v2 > worst[0]:
-                        worst = (float(v2), 'filter %d (time)' % i)
+            for nfb, b in [(nf_, C('mel', num_filts=nf_, low_hz=100.0, sampling_rate=8000, **kw)) for nf_ in (8, 24)]:
+              for i in range(b.num_filts):
+                  width = 1 << 14
+                  H = np.abs(b.get_frequency_response(i, width))
+                  lo, hi = b.supports_hz[i]
+                  f = np.arange(width) * 8000.0 / width
+                  f = np.where(f > 4000 + (hi - 4000 if hi > 4000 else 0) + 1e9, f - 8000, f)
+                  outside = ~(((f >= lo) & (f <= hi)) | ((f - 8000 >= lo) & (f - 8000 <= hi)))
+                  v = H[outside].max() if outside.any() else 0.0
+                  if v > worst[0]:
+                      worst = (float(v), 'filter %d' % i)
+                  if k == 'gabor':
+                      s0, s1 = b.supports[i]
+                      wt = 4 * (s1 - s0) + 64
+                      h = np.abs(b.get_impulse_response(i, wt))
+                      ins = np.zeros(wt, bool)
+                      ins[np.arange(s0, s1 + 1) % wt] = True
+                      v2 = h[~ins].max() * 1.25      # time-domain clause allows 2 x threshold, frequency 2.5 x: normalise to the latter
+                      if v2 > worst[0]:
+                          worst = (float(v2), 'filter %d of %d (time; %.1f x threshold)' % (i, nfb, v2 / 1.25 / thr))
             return {'reproduced': worst[0] > 2.5 * thr, 'detail': 'max magnitude outside the advertised support = %.3g (%.1f x threshold) at %s' % (worst[0], worst[0] / thr, worst[1])}
         if k == 'straddle':
             C = getattr(filters, w['cls'])
